@@ -34,12 +34,21 @@ def _expected(r):
     return out
 
 
-def tpl_map(size, conc, stars, L, bad, cb, x2, a2, x3, a3, t, bk=0, emp=-1, _twin=False):
-    w = World("c05.map")
+def tpl_occupied(size, occ, conc, stars, L, x2, a2, x3, a3, _twin=False):
+    """The map call is made on a pool that other work already occupies (occ apply tasks, possibly filling it): the
+    consumer's first step may find no room at all.  Same clauses; the occupants are workers 0 .. occ-1."""
+    return tpl_map(size, conc, stars, L, -1, 1, x2, a2, x3, a3, 9, 0, -1, _twin, occ)
+
+
+def tpl_map(size, conc, stars, L, bad, cb, x2, a2, x3, a3, t, bk=0, emp=-1, _twin=False, occ=0):
+    w = World("c05.occupied" if occ else "c05.map")
     code = 0
     try:
         pool = TaskPool(pool_size=size)
         it = Interp(w, pool, cbkind=cb)
+        if occ:
+            it.apply(occ, fname="occupant")
+            w.settle()
         r = it.map(L, conc, stars=stars, bad=bad, badkind=bk, empty=emp)
 
         def created():
@@ -85,7 +94,10 @@ def tpl_map(size, conc, stars, L, bad, cb, x2, a2, x3, a3, t, bk=0, emp=-1, _twi
             if not code and r["pulled"] != L:
                 code = 505
         if _twin and not code and not w.excluded:
-            if len(w.W) >= 2 and w.peak >= 2 and r.get("exhausted"):
+            if occ:
+                if r.get("exhausted") and len(it.workers_of(r)) == L and L >= 2 and pool._num_started == occ + L:
+                    code = 77
+            elif len(w.W) >= 2 and w.peak >= 2 and r.get("exhausted"):
                 code = 77
         return code
     finally:
@@ -102,6 +114,13 @@ def families(tier):
              "cb == 1", "x2 == %d" % NOP, "a2 == 0", "x3 == %d" % NOP, "a3 == 0", "t >= 0", "0 <= bk <= 1", "bk == 0 or (stars >= 1 and bad >= 0)", "-1 <= emp <= 2", "emp == -1 or (stars >= 1 and bad == -1 and emp < L)"],
         parts=parts_product(stars=range(3), L=range(lmax + 1)),
         twin_pre=["stars == 1", "L == 3"], twin_args=[2, 2, 1, 3, 1, 1, NOP, 0, NOP, 0, 9, 0, -1])]
+    fams.append(Family(
+        name="occupied", fn="tpl_occupied", params=["size", "occ", "conc", "stars", "L", "x2", "a2", "x3", "a3"],
+        pre=["size >= 1", "1 <= occ <= 2", "1 <= conc <= 2", "0 <= stars <= 2", "1 <= L <= 3", "0 <= x2 <= %d" % NOP, "a2 >= -1",
+             "0 <= x3 <= %d" % NOP, "a3 >= -1"] + ([] if thorough else ["size <= 3", "stars == 0", "L == 3", "x2 == 0 or x2 == 2 or x2 == %d" % NOP,
+                                                    "x3 == 0 or x3 == %d" % NOP, "a2 <= 2", "a3 <= 3"]),
+        parts=parts_product(occ=(1, 2), conc=(1, 2)) if not thorough else parts_product(occ=(1, 2), conc=(1, 2), stars=range(3), x2=range(NOP + 1)),
+        twin_pre=["occ == 2", "conc == 2", "L == 3", "x2 == 0"], twin_args=[2, 2, 2, 0, 3, 0, 0, 0, 1]))
     if not thorough:
         fams.append(Family(
             name="inter", fn="tpl_map", params=P,
